@@ -833,7 +833,8 @@ LEVEL_TEXT = (
     "names never count, only an inherited __setattr__ is looked at); C14_written_only_if_decided + "
     "C14_user_methods_kept_dict/_slots (frame theorems over arbitrary association lists: a key changes only if its group "
     "was decided, or it is a field / a key the slotted copy drops / the __setattr__ reset branch) and C14_user_methods_kept "
-    "(case level, with K8 as the only exception); C14_model_meets_spec; C14_K8_witness. The checks of attrs.wrap are proved "
+    "(case level, no exception: K8 is repaired, fixes/C14/K8.diff); C14_model_meets_spec (known c = [] for every case); "
+    "C14_K8_repaired, C14_reset_still_happens (regression theorems on the former witness). The checks of attrs.wrap are proved "
     "to fire exactly on the documented error conditions (Proofs/C14Err). OBSERVED, not proved: that /repo behaves like the "
     "model -- differential correspondence comparing, for every watched name, what C.__dict__ holds (identity with the "
     "user's object -- functions, functions with a __class__ cell, classmethod/property/staticmethod objects, a tuple --, "
@@ -842,5 +843,6 @@ LEVEL_TEXT = (
     "random cross-group cases; quick: 1000 sampled cases per block + 9000 random. Behaviour of generated methods is probed "
     "(repr string, ==/!=, ordering, hash equality, __init__ against reference semantics, __attrs_init__ against the generated "
     "__init__ of a twin class: outcome, callback trace, field values, exception args, hash cache, "
-    "getstate/setstate + pickle round trip, hook runs on assignment), not modelled. Known deviation K8 listed with a Lean "
-    "predicate (Attrs.C14.k8).")
+    "getstate/setstate + pickle round trip, hook runs on assignment), not modelled. No known deviation is "
+    "listed: the former K8 witness and its slotted / plain-class-in-between / define(auto_detect=False) variants are corpus "
+    "regression cases (corpus/C14/k8-*.json).")
